@@ -72,6 +72,17 @@ public:
         ,       MemoryManager*     const manager = XMLPlatformUtils::fgMemoryManager
         );
 
+    /**
+      * Returns the canonical representation of a base64Binary literal:
+      * it contains no white space.
+      */
+    virtual const XMLCh* getCanonicalRepresentation
+                        (
+                          const XMLCh*         const rawData
+                        ,       MemoryManager* const memMgr = 0
+                        ,       bool                 toValidate = false
+                        ) const;
+
     /***
      * Support for Serialization/De-serialization
      ***/
